@@ -30,6 +30,7 @@ pub const SUBS: &[SubDef] = &[
     SubDef { prop: "C03", name: "negative", oracle: negative },
     SubDef { prop: "C03", name: "tail", oracle: tail },
     SubDef { prop: "C03", name: "differential", oracle: differential },
+    SubDef { prop: "C03", name: "differential_raw", oracle: differential_raw },
 ];
 
 fn run(ctx: &Ctx) {
@@ -37,6 +38,7 @@ fn run(ctx: &Ctx) {
     ctx.run_tape("negative", negative, ctx.pick(8_000, 300_000), 400);
     ctx.run_tape("tail", tail, ctx.pick(6_000, 300_000), 500);
     ctx.run_tape("differential", differential, ctx.pick(8_000, 400_000), 500);
+    ctx.run_tape("differential_raw", differential_raw, ctx.pick(10_000, 400_000), 96);
 }
 
 #[derive(Debug, PartialEq, Clone)]
@@ -212,7 +214,13 @@ fn negative(t: &mut Tape, obs: &mut Obs) -> R {
             let body = t.small_blob(30);
             let mut e = Enc::new();
             e.u8(t.pick(&[1u8, 2, 11, 12, 14, 16, 20]));
-            e.u24(body.len() as u32 + 1 + t.below(70000) as u32);
+            // more than the record holds: by a little, by a lot, or only through the high byte of the 24-bit length
+            let declared = match t.below(3) {
+                0 => body.len() as u32 + 1 + t.below(70000) as u32,
+                1 => ((1 + t.below(255)) as u32) << 16 | t.below(body.len() + 1) as u32,
+                _ => t.pick(&[0x01_0000u32, 0x01_0001, 0xff_0000, 0x80_0000, 0xff_ffff]),
+            };
+            e.u24(declared);
             e.bytes(&body);
             ("cut-short:handshake-declared-length".to_string(), record(0x16, version, &e.buf))
         }
@@ -255,7 +263,7 @@ fn tail(t: &mut Tape, obs: &mut Obs) -> R {
                 let body = t.small_blob(20);
                 let mut e = Enc::new();
                 e.u8(t.pick(&[1u8, 2, 11, 20]));
-                e.u24(body.len() as u32 + 1 + t.below(1000) as u32);
+                e.u24(if t.bool() { body.len() as u32 + 1 + t.below(1000) as u32 } else { ((1 + t.below(255)) as u32) << 16 | t.below(body.len() + 1) as u32 });
                 e.bytes(&body);
                 e.buf
             }
@@ -294,6 +302,34 @@ fn tail(t: &mut Tape, obs: &mut Obs) -> R {
         }
         o => return fail(format!("C03:tail:{}:two-step:{:?}", sigk, o), format!("two-step parsing must return the valid prefix, got {:?}", o)),
     }
+    Ok(())
+}
+
+/// the tape itself is the record bytes (first byte folded onto the five content types most of the time)
+fn differential_raw(t: &mut Tape, obs: &mut Obs) -> R {
+    let mut buf = Vec::new();
+    while !t.exhausted() {
+        buf.push(t.u8());
+    }
+    if let Some(b0) = buf.first_mut() {
+        if *b0 & 0x80 == 0 {
+            *b0 = 0x14 + (*b0 % 5);
+        }
+    }
+    if buf.len() >= 5 {
+        obs.nontrivial(fnv64(&buf));
+    }
+    let a = one_step(&buf)?;
+    let b = two_step(&buf)?;
+    obs.class(match &a {
+        Out::Ok { .. } => "ok",
+        Out::Incomplete => "incomplete",
+        Out::Error(_) => "error",
+    });
+    if matches!(a, Out::Ok { .. }) {
+        obs.sample(json!({"case": "raw", "hex": hex_short(&buf)}));
+    }
+    ensure!(strip(&a) == strip(&b), "C03:differential:one-step-vs-two-step", "one-step and two-step parsing disagree on {}: one-step {} two-step {}", hex_short(&buf), trunc(&format!("{:?}", a)), trunc(&format!("{:?}", b)));
     Ok(())
 }
 
